@@ -202,6 +202,10 @@ enum Value<'l> {
 
 macro_rules! format_values_from_inner {
     ($step:expr, $keys:expr, $errors:expr) => {
+        if $keys.is_empty() {
+            // nothing to look up: do not ask for a bundle
+            return Vec::new();
+        }
         let mut cells = vec![Value::None; $keys.len()];
 
         while let Some(bundle) = $step {
@@ -279,6 +283,10 @@ macro_rules! format_values_from_inner {
 
 macro_rules! format_messages_from_inner {
     ($step:expr, $keys:expr, $errors:expr) => {
+        if $keys.is_empty() {
+            // nothing to look up: do not ask for a bundle
+            return Vec::new();
+        }
         let mut result = vec![None; $keys.len()];
 
         let mut is_complete = false;
